@@ -6,20 +6,29 @@ Open Scope N_scope.
 
 (* ------------------------------------------------------------------ *)
 (* attr_from_api never panics                                          *)
+Lemma from_api_unchecked_total :
+  forall (v6r : list N -> option N) (x : api_attr), exists r, from_api_unchecked v6r x = Ok r.
+Proof.
+  intros v6r x; destruct x; cbn [from_api_unchecked]; try (eexists; reflexivity).
+  - destruct (255 <? ty); [eexists; reflexivity|].
+    destruct (canonical_flags ty);
+      [destruct (65535 <? _); [eexists; reflexivity|]; destruct (_ && _); eexists; reflexivity|].
+    destruct (_ && _); eexists; reflexivity.
+  - destruct (2 <? o); eexists; reflexivity.
+  - destruct (forallb seg_ok segs); eexists; reflexivity.
+  - destruct (ip4_of_string s); [eexists; reflexivity|]. destruct (v6r s); eexists; reflexivity.
+  - destruct (ip4_of_string addr); eexists; reflexivity.
+  - destruct (ip4_of_string s); eexists; reflexivity.
+  - destruct (parse_ids ids); eexists; reflexivity.
+  - destruct (write_extcoms l); eexists; reflexivity.
+Qed.
+
 Theorem C17_from_api_total :
   forall (v6r : list N -> option N) (x : api_attr) (t : N), from_api v6r x <> Panic t.
 Proof.
-  intros v6r x t; destruct x; cbn [from_api]; try discriminate.
-  - destruct (255 <? ty); [discriminate|].
-    destruct (canonical_flags ty); [destruct (65535 <? _); [discriminate|]; destruct (_ && _); discriminate|].
-    destruct (_ && _); discriminate.
-  - destruct (2 <? o); discriminate.
-  - destruct (forallb seg_ok segs); discriminate.
-  - destruct (ip4_of_string s); [discriminate|]. destruct (v6r s); discriminate.
-  - destruct (ip4_of_string addr); discriminate.
-  - destruct (ip4_of_string s); discriminate.
-  - destruct (parse_ids ids); discriminate.
-  - destruct (write_extcoms l); discriminate.
+  intros v6r x t. unfold from_api. destruct (from_api_unchecked_total v6r x) as [r ->].
+  unfold len_check. destruct r as [a|]; [|discriminate].
+  destruct (a_data a); try discriminate; destruct (65535 <? _); discriminate.
 Qed.
 
 (* ------------------------------------------------------------------ *)
